@@ -178,6 +178,13 @@ Fixpoint ready (mb fuel : nat) (s : fs (Conc mb)) (d : nat) : bool :=
                    (dir_ents (Conc mb) s d)
   end.
 
+(* the recursion bound alone: no directory at depth fuel below d *)
+Fixpoint deep_ok (mb fuel : nat) (s : fs (Conc mb)) (d : nat) : bool :=
+  match fuel with
+  | O => false
+  | S f => forallb (fun e => if is_dir (Conc mb) s (snd e) then deep_ok mb f s (snd e) else true) (dir_ents (Conc mb) s d)
+  end.
+
 Fixpoint has_char (c : ascii) (s : string) : bool :=
   match s with EmptyString => false | String x r => Ascii.eqb x c || has_char c r end.
 Definition bytes_beq (d d' : list byte) : bool :=
